@@ -38,8 +38,19 @@ fn raw_any() -> impl Strategy<Value = RawAny> {
         .prop_map(|(text, injections, collapse)| RawAny { text, injections, collapse, adversarial: false })
 }
 
+impl RawAny {
+    /// Decoding from fuzzer bytes (E3 target `raw_struct`): the same value space as `raw_any`.
+    pub fn from_bytes(b: &mut crate::gen::Bytes, families: &[u8]) -> RawAny {
+        let flags = b.u8();
+        let ni = b.len(4);
+        let injections = (0..ni).map(|_| (b.u8() % 16, b.u16_full(), b.u16_full())).collect();
+        let text = RawText::from_bytes(b, families);
+        RawAny { text, injections, collapse: flags & 7 == 7, adversarial: flags & 0x38 == 0x38 }
+    }
+}
+
 /// The text of a case and a label for its origin.
-fn any_text(raw: &RawAny) -> (String, &'static str) {
+pub fn any_text(raw: &RawAny) -> (String, &'static str) {
     if raw.adversarial && raw.text.family == 0 {
         let (sp, _) = crate::gen::build(&raw.text.grammar);
         let mut ch = crate::layout::Chooser::new(&raw.text.decor);
@@ -422,6 +433,7 @@ pub fn c07_run(ctx: &Ctx) -> i32 {
     c07_children(ctx, &mut rep, "E4-child-generated", &named, 500, Duration::from_secs(120));
     if ctx.tier == Tier::Thorough {
         crate::fuzzrun::run_into(ctx, &mut rep, crate::fuzzrun::Campaign { target: "text_frontend", prop: "C07", runs_total: (ctx.scale * 4_000_000.0) as u64, max_len: 4096, seeds: crate::fuzzrun::text_seeds(), dict: true });
+        crate::fuzzrun::run_into(ctx, &mut rep, crate::fuzzrun::raw_campaign("C07", (ctx.scale * 100_000.0) as u64));
         crate::fuzzrun::run_into(ctx, &mut rep, crate::fuzzrun::Campaign { target: "grammar_struct", prop: "C07", runs_total: (ctx.scale * 400_000.0) as u64, max_len: 300, seeds: vec![vec![0u8; 40], (0u8..200).collect()], dict: false });
     }
     quota_check(&mut rep, &["ref:lexically-invalid", "ref:lexes-but-does-not-parse", "ref:parses-but-statically-invalid", "ref:fully-valid", "outcome:ok", "outcome:table-conflict"]);
